@@ -13,6 +13,9 @@ def run(run):
             continue
         extra = {'objects': pc.objects, 'properties': pc.properties, 'bools': pc.bools}
         with guard(run, 'concept.objects / properties / atoms', [pc.line, 'lattice']):
+            if run.evaluations % 2:
+                # use the context before its lattice is built: empty and full selections, both directions
+                pc.ctx.intension([]), pc.ctx.extension([]), pc.ctx.intension(pc.objects), pc.ctx.extension(pc.properties)
             L = pc.ctx.lattice
             cs = list(L)
             E = [pc.omask(c.extent) for c in cs]
